@@ -171,6 +171,25 @@ def i3(run, tu):
     more = [nid for nid, c in cls.items() if 'T:item != 0' in g.fact_texts(nid) and 'F:i < length' in g.fact_texts(nid)]
     okm = len(more) == 1 and cls[more[0]] == 'PyExc_ValueError'
     run.ob('I3/too-many-values-raise-ValueError', fn, 'one more iternext() after the loop', okm, tu.where(g.nodes[more[0]].ast) if more else tu.where(f))
+    # no success without a check of the number of source values
+    eq_facts = ('T:get_array_length(v) == length', 'F:srclen != length', 'T:srclen == length')
+    after_loop = [n.id for n in g.nodes if n.ast is not None and n.kind == 'stmt' and stmt_text(n.ast).replace(' ', '') == 'item=iternext(it)' and
+                  'F:i < length' in g.fact_texts(n.id)]
+    for r in g.nodes:
+        if r.kind != 'return':
+            continue
+        rv = rules.return_value(r)
+        if rv in ('-1',):
+            continue
+        facts = g.fact_texts(r.id)
+        if rv == '0':
+            ok = any(t in facts for t in eq_facts)
+            why = 'dominating facts %s' % sorted(t for t in facts if 'length' in t)
+        else:
+            ok = bool(after_loop) and r.id not in g.reach([g.entry.id], avoid=after_loop, avoid_edges=g.edges_of(
+                    lambda cn, l: (cx.render(cn.ast).replace(' ', ''), l) in (('item==0', 'T'), ('err<0', 'T'))))
+            why = 'the final return is reached without the extra iternext() on a path that is not an error exit'
+        run.ob('I3/success-only-after-the-source-length-was-checked', fn, 'return %s' % rv, ok, tu.where(r.ast), why)
     # stores go through convert_from_object at cdata advancing by itemsize
     adv = [stmt_text(n.ast) for n in g.nodes if n.ast is not None and n.kind == 'stmt' and stmt_text(n.ast).startswith('cdata +=')]
     run.ob('I3/cursor-advances-by-itemsize', fn, 'cdata += itemsize', adv == ['cdata += itemsize'], tu.where(f), str(adv))
